@@ -351,3 +351,24 @@ func SpecSetKiOK(store *HStore, ki *KeyInfo) bool {
 	return ki != nil && !ki.KeyIsPath && storeOK(store) && readyBucketOK(store, ki) && len(ki.Key) <= 255 &&
 		(b.State != BUCKET_STAT_READY || (treeVerOf(b, kiHash(ki)) > -2147483647 && treeVerOf(b, kiHash(ki)) < 2147483647))
 }
+
+// ---------- C11: special keys ('@' directory listings, '@@' records by key hash) ----------
+
+// SpecStoreOK: the bucket table is set up (exported for contracts in package gobeansdb)
+func SpecStoreOK(store *HStore) bool { return storeOK(store) }
+
+// a path key is at most 16 hex digits (precondition of Prepare); whatever the digits are, looking
+// the record up must not crash: a path that does not parse, or is shorter than the bucket prefix,
+// names no bucket
+//@ func (store *HStore) GetRecordByKeyHash
+//@   props C11
+//@   ints bv
+//@   requires ki != nil && storeOK(store) && (ki.KeyIsPath ==> len(ki.StringKey) <= 16)
+//@   modifies *
+
+// a directory listing: same precondition on the path length
+//@ func (store *HStore) ListDir
+//@   props C11
+//@   ints bv
+//@   requires ki != nil && storeOK(store) && (ki.KeyIsPath ==> len(ki.StringKey) <= 16) && len(ki.Key) == len(ki.StringKey)
+//@   modifies *
